@@ -163,10 +163,12 @@ class Grammar(object):
             except SyntaxError as e:
                 raise AnalysisError('cannot parse grammar docstring of %s: %s' % (f.name, e))
             for (file, line, prodname, syms) in parsed:
+                orig = list(syms)       # ply strips "%prec X" from the list it is given
                 try:
-                    g.add_production(prodname, syms, f.name, file, line)
+                    g.add_production(prodname, list(syms), f.name, file, line)
                 except yacc.GrammarError as e:
                     raise AnalysisError('production rejected by ply: %s' % e)
+                syms = orig
                 prec = None
                 clean = list(syms)
                 if '%prec' in syms:
